@@ -17,6 +17,7 @@ void run_threads(int n, void (*body)(int));
 int hook_mutex_lock(pthread_mutex_t *m);
 int hook_mutex_unlock(pthread_mutex_t *m);
 int hook_mutex_trylock(pthread_mutex_t *m);
+int hook_mutex_timedlock(pthread_mutex_t *m, const struct timespec *);
 int hook_nanosleep(const struct timespec *, struct timespec *);
 }
 
@@ -518,6 +519,26 @@ OP(box_afternm_shared) {
     c.emit(ct, n + 16); c.emit(v);
 }
 
+// the constant-time helpers on caller buffers that END EXACTLY at an inaccessible page (guarded allocations of the
+// exact size): an access past the end -- also one made from inline assembly, which no instrumentation sees -- faults
+OP(helpers_on_guarded_buffers) {
+    static const size_t sizes[] = {1, 4, 8, 12, 16, 24, 32, 64};
+    size_t n = sizes[c.in.below(sizeof sizes / sizeof sizes[0])];
+    unsigned char *src = c.input(n), *src2 = c.input(n); int r1 = 0, r2 = 0, z = 0; unsigned char keep[64];
+    bool ok;
+    { LibScope l;
+      unsigned char *a = (unsigned char *) sodium_malloc(n), *b = (unsigned char *) sodium_malloc(n);
+      ok = a && b;
+      if (ok) {
+          memcpy(a, src, n); memcpy(b, src2, n);
+          sodium_increment(a, n); sodium_add(a, b, n); sodium_sub(a, b, n); r1 = sodium_compare(a, b, n); r2 = sodium_memcmp(a, b, n); z = sodium_is_zero(b, n);
+          memcpy(keep, a, n);
+          sodium_memzero(b, n);
+      }
+      sodium_free(a); sodium_free(b); }
+    c.emit(ok); if (ok) { c.emit(keep, n); c.emit(r1 * 100 + r2 * 10 + z); }
+}
+
 static void verif_misuse_handler(void) {}
 // public API that is rarely called but must be as thread-safe as the rest: installing the (same) misuse handler takes
 // the library lock; stir/close of the installed random source touch only per-thread state on this platform
@@ -543,6 +564,7 @@ const OpDesc OPS[] = {
     {"onetimeauth_multi", op_onetimeauth_multi}, {"siphashx24", op_siphashx24}, {"hkdf_sha512", op_hkdf_sha512}, {"secretbox_detached", op_secretbox_detached}, {"box_xchacha", op_box_xchacha},
     {"sign_convert", op_sign_convert}, {"sign_combined", op_sign_combined}, {"ed25519_scalars", op_ed25519_scalars}, {"ristretto_hash", op_ristretto_hash}, {"h2c", op_h2c},
     {"pwhash_str_argon2i", op_pwhash_str_argon2i}, {"base64_variants", op_base64_variants}, {"kx_server", op_kx_server},
+    {"helpers_on_guarded_buffers", op_helpers_on_guarded_buffers},
     {"aes256gcm_shared_state", op_aes256gcm_shared_state}, {"box_afternm_shared", op_box_afternm_shared},
 };
 const size_t NOPS = sizeof OPS / sizeof OPS[0];
@@ -622,7 +644,7 @@ void install_hooks() {
     simos_hooks.malloc_ = h_malloc; simos_hooks.calloc_ = h_calloc; simos_hooks.free_ = h_free; simos_hooks.posix_memalign_ = h_posix_memalign;
     simos_hooks.mmap_ = h_mmap; simos_hooks.munmap_ = h_munmap; simos_hooks.mprotect_ = h_mprotect; simos_hooks.mlock_ = h_mlock; simos_hooks.munlock_ = h_munlock; simos_hooks.madvise_ = h_madvise;
     simos_hooks.raise_ = h_raise; simos_hooks.abort_ = h_abort; simos_hooks.assert_fail_ = h_assert_fail;
-    simos_hooks.mutex_lock_ = simrt::hook_mutex_lock; simos_hooks.mutex_unlock_ = simrt::hook_mutex_unlock; simos_hooks.mutex_trylock_ = simrt::hook_mutex_trylock;
+    simos_hooks.mutex_lock_ = simrt::hook_mutex_lock; simos_hooks.mutex_unlock_ = simrt::hook_mutex_unlock; simos_hooks.mutex_trylock_ = simrt::hook_mutex_trylock; simos_hooks.mutex_timedlock_ = simrt::hook_mutex_timedlock;
     simos_hooks.nanosleep_ = simrt::hook_nanosleep;
 }
 
@@ -679,7 +701,7 @@ struct C19 {
     static const char *name() { return "c19_threads"; }
     static const char *level() { return "exploration"; }
     static const char *rule() {
-        return "seeded plans: N in 2..16 real threads, each calling sodium_init() and then 0-12 operations drawn from a 70-entry table covering every API family (no barrier "
+        return "seeded plans: N in 2..16 real threads, each calling sodium_init() and then 0-12 operations drawn from a 71-entry table covering every API family (no barrier "
                "between init and workload), under RNG configuration {default sysrandom over simulated getrandom, internal, scripted} and lock variant " C19_LOCK_VARIANT
                ". Exactly one thread is runnable at a time; a seeded scheduler (random walk / PCT depth 1-4 / loser-first / coarse) decides at every instrumented access to "
                "tracked memory, every lock/unlock, atomic and wrapped system call. Oracles: own vector-clock happens-before race detector over the TSan compiler ABI "
@@ -887,6 +909,24 @@ struct C19 {
                 res.fail("result-differs-from-sequential", nm, std::string("thread ") + std::to_string(t) + " operation #" + std::to_string(i) + " (" + nm + ") returned something else than in the sequential execution of the same plan", (int) i);
                 return res;
             }
+        }
+        // outputs that are nothing but fresh randomness must never coincide, neither between threads (each has its
+        // own entropy stream) nor within one thread
+        {
+            std::map<uint64_t, std::pair<int, size_t>> seen;
+            for (int t = 0; t < p.nthreads && !res.violated; t++)
+                for (size_t i = 0; i < got.results[(size_t) t].size(); i++) {
+                    const char *nm = OPS[(size_t) g_thread_ops[(size_t) t][i] % NOPS].name;
+                    if (strcmp(nm, "randombytes") && strcmp(nm, "randombytes_small") && strcmp(nm, "keygens") && strcmp(nm, "ed25519_random") && strcmp(nm, "ristretto_random")) continue;
+                    uint64_t key = mix64(got.results[(size_t) t][i], hash_str(0, nm));
+                    auto it = seen.find(key);
+                    if (it != seen.end()) {
+                        res.fail("random-output-repeats", nm, std::string("thread ") + std::to_string(t) + " operation #" + std::to_string(i) + " (" + nm + ") produced exactly the random output that thread " + std::to_string(it->second.first) + " operation #" + std::to_string(it->second.second) + " produced", (int) i);
+                        break;
+                    }
+                    seen[key] = {t, i};
+                }
+            if (res.violated) return res;
         }
         res.count("probe.compared_with_sequential");
         return res;
